@@ -23,14 +23,20 @@ def dim_line(h, l, items=None):
     return f"dim ${h} D:{l}:{name}:{ty}:" + ",".join(("i" if ty == "i" else "s") + str(x) for x in its)
 
 
-def gen_build(tier, seed):
-    r = rng(seed, "build")
-    ncases = 120 if tier == "quick" else 2500
+def gen_defs(tier, seed):
+    """definitions only, exported with to_dfs (stream `defs`, property C19)"""
+    lines, stats = gen_build(tier, seed, todfs=True)
+    return lines, stats
+
+
+def gen_build(tier, seed, todfs=False):
+    r = rng(seed, "defs" if todfs else "build")
+    ncases = (40 if todfs else 120) if tier == "quick" else (600 if todfs else 2500)
     lines = []
     stats = {"cases": 0, "systems": 0, "route_direct": 0, "route_csv": 0, "route_xlsx": 0, "bad_on_purpose": 0,
              "flows": 0, "stocks": 0, "params": 0, "process_lists": 0, "dimfiles": 0, "dimfile_bad": 0}
     for n in range(ncases):
-        kind = r.random()
+        kind = r.random() if not todfs else 0.0
         lines.append(f"case {n} build")
         stats["cases"] += 1
         if kind < 0.6:
@@ -42,11 +48,13 @@ def gen_build(tier, seed):
             for k, l in enumerate(letters):
                 lines.append(dim_line(k, l))
             route = r.choices(["direct", "csv", "xlsx"], [0.6, 0.25, 0.15])[0] if tier != "quick" or n % 4 else "direct"
+            if todfs:
+                route = "direct"
             stats["route_" + route] += 1
             lines.append("b_begin")
             lines.append(f"b_route {route}")
             lines.append("b_dims " + " ".join(f"${k}" for k in range(len(letters))))
-            bad = r.random() < 0.35
+            bad = r.random() < (0.35 if not todfs else 0.1)
             badkind = r.choice(["sysenv", "letter", "process", "lm_missing", "lm_unused", "time_pos", "solver",
                                 "stockproc", "prm_letter", "two_char", "defletters", "time_letter_missing"]) if bad else None
             if bad:
@@ -65,7 +73,7 @@ def gen_build(tier, seed):
             lines.append("b_procs " + " ".join(procs))
             if route == "direct":
                 lines.append("b_naming " + r.choice(["arrow", "nospaces", "ids"]))
-            if badkind == "defletters" and route == "direct":
+            if badkind == "defletters" and route == "direct" and not todfs:
                 keep = [l for l in letters if r.random() < 0.6]
                 lines.append(("b_defletters " + " ".join(keep)).rstrip())
 
@@ -132,7 +140,7 @@ def gen_build(tier, seed):
                 vals = [str(r.randint(-20, 60)) if r.random() < 0.6 else f"{r.randint(-99, 99)}/{r.choice([2, 4, 8])}" for _ in range(size)]
                 lines.append(f"b_param p{i} {tok(ls)} " + " ".join(vals))
                 stats["params"] += 1
-            lines.append("b_build")
+            lines.append("b_build" if not todfs else "b_todfs")
         elif kind < 0.72:
             stats["process_lists"] += 1
             lines.append("b_begin")
